@@ -111,6 +111,20 @@ func (e *Exec) intrinsic(fn *ssa.Function, name string, args []Value) (Value, bo
 			}
 		}
 		return e.nmF(r), true
+	case "math.Min", "math.Max":
+		x, y := args[0].(Float), args[1].(Float)
+		if x.IsC && y.IsC {
+			if name == "math.Min" {
+				return mkFloat(math.Min(x.C, y.C)), true
+			}
+			return mkFloat(math.Max(x.C, y.C)), true
+		}
+		e.stubs["math.Min/math.Max: selection by comparison (NaN-free arguments; the sign of a zero result is not modelled)"] = true
+		op := "<"
+		if name == "math.Max" {
+			op = ">"
+		}
+		return e.fIteX(e.fCmpX(op, x, y), x, y), true
 	case "math.Mod":
 		a, b := args[0].(Float), args[1].(Float)
 		if a.IsC && b.IsC {
